@@ -106,13 +106,49 @@ def r_agg(E):
     # update_total_footprint iterates one dict's keys over both
     owner, utf = pm.find_method("System", "update_total_footprint")
     res.instances += 1
-    subs = {}
+    from ..astutil import expanded
+    DICTS = ("fabrication_footprints", "energy_footprints")
+
+    def which(e):
+        e = expanded(e, utf)
+        return e.attr if isinstance(e, ast.Attribute) and e.attr in DICTS else None
+    # variables ranging over the categories of one of the two dicts: `for k in D` / `D.keys()` / `for k, v in D.items()`
+    keyvars, visited = set(), set()
     for n in ast.walk(utf):
-        if isinstance(n, ast.Subscript) and isinstance(n.value, ast.Attribute) and n.value.attr in (
-                "fabrication_footprints", "energy_footprints"):
-            subs.setdefault(n.value.attr, set()).add(norm(n.slice))
-    if set(subs) != {"fabrication_footprints", "energy_footprints"} or \
-            subs["fabrication_footprints"] != subs["energy_footprints"]:
+        if isinstance(n, (ast.For, ast.comprehension)):
+            it = n.iter
+            meth = it.func.attr if isinstance(it, ast.Call) and isinstance(it.func, ast.Attribute) else None
+            base = it.func.value if meth in ("keys", "items", "values") else it
+            d = which(base)
+            if d is None:
+                continue
+            if meth == "items" and isinstance(n.target, ast.Tuple) and len(n.target.elts) == 2:
+                keyvars.add(norm(n.target.elts[0]))
+                visited.add(d)
+            elif meth == "values":
+                visited.add(d)
+            else:
+                keyvars.add(norm(n.target))
+    for n in ast.walk(utf):
+        if isinstance(n, ast.Subscript) and which(n.value) and norm(n.slice) in keyvars:
+            visited.add(which(n.value))
+    # … and sums them all: an entry filtered out (because it is empty now) is not a parent of the total, so the total
+    # is not recomputed when a later value edit gives that component a footprint
+    res.instances += 1
+    filt = [g for n in ast.walk(utf) if isinstance(n, (ast.ListComp, ast.GeneratorExp, ast.SetComp)) for g in n.generators if g.ifs]
+    cond_acc = [n for n in ast.walk(utf) if isinstance(n, ast.If) and any(
+        isinstance(x, ast.AugAssign) or (isinstance(x, ast.Call) and isinstance(x.func, ast.Attribute)
+                                        and x.func.attr in ("append", "extend")) for x in ast.walk(n))
+        and any(isinstance(l, (ast.For, ast.While)) and any(y is n for y in ast.walk(l)) for l in ast.walk(utf))]
+    if filt or cond_acc:
+        t = filt[0].ifs[0] if filt else cond_acc[0].test
+        res.findings.append(Finding(
+            "R-AGG", "FILTER System.update_total_footprint",
+            f"update_total_footprint leaves some entries out of the sum (`{norm(t)[:70]}`): the operands of the sum are "
+            f"the recorded parents of the total, so a component whose footprint is empty (or filtered out) when the total "
+            f"is computed is no ancestor of it, and a later value edit that gives it a footprint does not recompute the "
+            f"total", rel, t.lineno, "System.update_total_footprint"))
+    if visited != set(DICTS):
         res.findings.append(Finding("R-AGG", "KEYS System.update_total_footprint",
                                     "update_total_footprint no longer sums both the fabrication and the energy entry of "
                                     "each category", rel, utf.lineno, "System.update_total_footprint"))
@@ -252,13 +288,15 @@ def _eval_reader_test(t, p):
     raise AnalysisError(f"json reader test not understood: {norm(t)[:80]}")
 
 
-def _select_reader_path(paths, p):
+def _select_reader_path(paths, p, reader=None):
     """the path of the reader that a dict with p's keys takes: (path, None) or (None, problem text)"""
+    from ..astutil import fully_expanded
     for path in paths:
         taken = True
         for test, pol in path.conds:
             try:
-                r = _eval_reader_test(test, p)
+                # (a test hoisted into a local — has_unit = "unit" in d — reads as the test itself)
+                r = _eval_reader_test(fully_expanded(test, reader) if reader is not None else test, p)
             except _KeyErr as e:
                 return None, f"the reader's test `{norm(test)[:60]}` subscripts ['{e.args[0]}'], which this path did not emit"
             if r != pol:
@@ -292,7 +330,7 @@ def r_json_keys(E):
         w = inline_helpers(w, lambda name, _c=cls: (pm.find_method(_c, name)[1] if name != "to_json" else None))
         for p in _writer_paths(w):
             res.instances += 1
-            selected, problem = _select_reader_path(rpaths, p)
+            selected, problem = _select_reader_path(rpaths, p, reader)
             where = f"{cls}.to_json [{' & '.join(p['conds']) or 'always'}]"
             branch = ""
             if problem is None:
@@ -523,35 +561,59 @@ def _annotation_form(a):
     return "other"
 
 
-def _validator_forms(fn):
+def _inside_comprehension(n):
+    x = getattr(n, "_parent", None)
+    while x is not None and not isinstance(x, ast.stmt):
+        if isinstance(x, (ast.GeneratorExp, ast.ListComp, ast.SetComp)):
+            return True
+        x = getattr(x, "_parent", None)
+    return False
+
+
+def _validator_forms(fn, module_const=None):
     """which annotation forms does check_input_value_type_positivity_and_unit actually check?"""
+    from ..astutil import fully_expanded, exits
     handled = set()
     top = None
-    for n in ast.walk(fn):
-        t = n.test if isinstance(n, ast.If) else None
+
+    def origin_call(t):
+        t = fully_expanded(t, fn)
         if isinstance(t, ast.UnaryOp) and isinstance(t.op, ast.Not):
             t = t.operand
-        if isinstance(t, ast.Call) and norm(t.func) == "get_origin" and len(t.args) == 1 and isinstance(t.args[0], ast.Name):
+        return isinstance(t, ast.Call) and norm(t.func) == "get_origin" and len(t.args) == 1
+    for n in ast.walk(fn):
+        if isinstance(n, ast.If) and origin_call(n.test):
             top = n
     if top is None:
         return None
-    negated = isinstance(top.test, ast.UnaryOp)
+    t0 = fully_expanded(top.test, fn)
+    negated = isinstance(t0, ast.UnaryOp)
     top_body, top_else = (top.orelse, top.body) if negated else (top.body, top.orelse)
+    if not top_else and exits(top_body):
+        # `if origin: …; return` followed by the class branch
+        par = getattr(top, "_parent", None)
+        for field in ("body", "orelse"):
+            block = getattr(par, field, None)
+            if isinstance(block, list) and any(s is top for s in block):
+                top_else = block[next(i for i, s in enumerate(block) if s is top) + 1:]
     names_in_origin_tests = set()
-    for n in [top] + [x for b in top_body for x in ast.walk(b)]:
-        if isinstance(n, ast.Compare) and "get_origin" in norm(n.left):
-            for c in n.comparators:
-                names_in_origin_tests |= {x.id for x in ast.walk(c) if isinstance(x, ast.Name)}
-    # the union normalisation may also sit just before the dispatch
+
+    def names_of(c):
+        out = set()
+        for x in ast.walk(c):
+            if isinstance(x, ast.Name):
+                v = module_const(x.id) if module_const is not None else None
+                out |= {y.id for y in ast.walk(v) if isinstance(y, ast.Name)} if v is not None else {x.id}
+        return out
     for n in ast.walk(fn):
-        if isinstance(n, ast.Compare) and "get_origin" in norm(n.left):
+        if isinstance(n, ast.Compare) and "get_origin" in norm(fully_expanded(n.left, fn)):
             for c in n.comparators:
-                names_in_origin_tests |= {x.id for x in ast.walk(c) if isinstance(x, ast.Name)}
+                names_in_origin_tests |= names_of(c)
     if names_in_origin_tests & {"list", "List"}:
         handled.add("list")
     if names_in_origin_tests & {"Union", "UnionType"}:
         handled.add("union")
-    # the elif chain after it handles plain classes
+    # the branch taken when there is no origin handles plain classes
     # (an isinstance test of the value — the validator's third parameter — against the annotation itself)
     val = fn.args.args[2].arg if len(fn.args.args) > 2 else "input_value"
     for b in top_else:
@@ -569,7 +631,8 @@ def r_val_forms(E):
                                     "annotation form used by a constructor parameter of a public class lands in a branch "
                                     "that checks something")
     rel, fn = pm.find_function(MO, "ModelingObject.check_input_value_type_positivity_and_unit")
-    handled = _validator_forms(fn)
+    modname = next((m for m, (r, t, _) in pm.modules.items() if r == rel), None)
+    handled = _validator_forms(fn, (lambda nm: pm._module_const(modname, nm)) if modname else None)
     if handled is None:
         raise AnalysisError("check_input_value_type_positivity_and_unit: dispatch on get_origin(annotation) not found")
     forms = {}
@@ -597,8 +660,7 @@ def r_val_forms(E):
         "sign": any(isinstance(c.ops[0], (ast.Lt, ast.LtE)) and vparam in norm(c.left) and "magnitude" in norm(c.left)
                     and norm(c.comparators[0]) == "0" for c in cmps),
         "type": any(norm(c.args[0]) == vparam and norm(_fx(c.args[1], fn)).endswith(".annotation") for c in isins),
-        "list element type": any(norm(c.args[0]) != vparam and isinstance(getattr(c, "_parent", None), (ast.GeneratorExp, ast.ListComp))
-                                 for c in isins),
+        "list element type": any(norm(c.args[0]) != vparam and _inside_comprehension(c) for c in isins),
     }
     for what, ok in present.items():
         res.instances += 1
@@ -624,8 +686,14 @@ def _is_change_pair(fn, old, new):
             t = a.targets[0] if isinstance(a, ast.Assign) else a.target
             src = a.value if isinstance(a, ast.Assign) else a.iter
             if isinstance(t, ast.Tuple) and len(t.elts) == 2 and all(isinstance(x, ast.Name) for x in t.elts) \
-                    and "changes_list" in norm(src) and [t.elts[0].id, t.elts[1].id] == [old, new]:
-                return True
+                    and [t.elts[0].id, t.elts[1].id] == [old, new]:
+                if "changes_list" in norm(src):
+                    return True
+                # `for i, change in enumerate(self.changes_list): old, new = change`
+                if isinstance(src, ast.Name) and any(
+                        isinstance(l, ast.For) and src.id in {y.id for y in ast.walk(l.target) if isinstance(y, ast.Name)}
+                        and "changes_list" in norm(l.iter) for l in ast.walk(fn)):
+                    return True
     return False
 
 
@@ -653,7 +721,17 @@ def r_val_sib(E):
                                         f"accepted on the other", r, fn.lineno, fn.name))
             continue
         c = calls[0]
-        # the validator receives the attribute name and the new value
+        # the validator receives the attribute name and the new value (positionally or by keyword)
+        vowner, vfn = pm.find_method("ModelingObject", v)
+        vparams = [a.arg for a in vfn.args.args][1:] if vfn is not None else []
+        pos = list(c.args)
+        for pname in vparams[len(pos):]:
+            kw = next((k.value for k in c.keywords if k.arg == pname), None)
+            if kw is None:
+                break
+            pos.append(kw)
+        if len(pos) != len(c.args):
+            c = ast.copy_location(ast.Call(func=c.func, args=pos, keywords=[]), c)
         args = [norm(a) for a in c.args]
         own = [a.arg for a in fn.args.args][1:3]
         if path == "construction" and args[:2] != own:
@@ -682,8 +760,10 @@ def r_val_sib(E):
     else:
         newv = None
         for c in ast.walk(loop):
-            if is_val(c) and len(c.args) >= 2:
-                newv = norm(c.args[1])
+            if is_val(c):
+                a1 = c.args[1] if len(c.args) >= 2 else next((k.value for k in c.keywords if k.arg == "input_value"), None)
+                if a1 is not None:
+                    newv = norm(a1)
         body = ast.FunctionDef(name=pc.name, args=pc.args, body=loop.body, decorator_list=[], returns=None)
         none_test = parse(f"{newv} is None") if newv else None
         for path in enumerate_paths(body, is_val):
